@@ -1,2 +1,3 @@
 SPECIFICATION Spec
 CHECK_DEADLOCK FALSE
+INVARIANT DecAgrees
